@@ -28,6 +28,9 @@ type failClass struct {
 	Exact    bool   // output must be exactly what preceded (false: only prefix + nothing later)
 }
 
+// the line number in a rendered error position: ("/t0.jet":4) - quotes escaped or not
+var reLineInText = regexp.MustCompile(`:\d+\)`)
+
 var failClasses = []failClass{
 	{"unknown-identifier", `{{ zzNope }}`, true, true},
 	{"unknown-field", `{{ item.ZzNope }}`, true, true},
@@ -82,6 +85,13 @@ var failClasses = []failClass{
 	{"index-map-key-nil", `{{ root.One[nil] }}`, true, true},
 	// a map with an interface key type indexed with something that cannot be hashed
 	{"index-map-key-unhashable", `{{ ifmap[names] }}`, true, true},
+	{"index-map-key-unhashable:inside-a-comparable-type", `{{ ifmap[uhkey] }}`, true, true},
+	// a range subject that cannot be received from; a safe writer that is nil; a value-receiver method
+	// called through a nil pointer
+	{"range-subject-kind:send-only-channel", `{{ range mksend() }}{{ end }}`, true, true},
+	{"call-target-kind:nil-safe-writer", `{{ nilw: "x" }}`, true, true},
+	{"call-target-kind:nil-safe-writer:piped", `{{ "x" | nilw }}`, true, true},
+	{"nil-dereference-method:value-receiver", `{{ root.NilP.Title() }}`, true, true},
 	// a slice piped into a variadic function; a field promoted through an embedded pointer that is nil
 	{"arg-kind:slice-piped-into-variadic", `{{ names | vsfn }}`, true, true},
 	{"nil-dereference-field:promoted-through-nil-embedded-pointer", `{{ nilemb.MetaName }}`, true, true},
@@ -440,6 +450,12 @@ func RunC12(env *sim.Env) {
 					}
 				}
 				got := untoken(Norm(F.Out))
+				want := want
+				if strings.Contains(fc.Text, "\n") {
+					// an action of several lines moves what follows it in the file: line numbers inside
+					// caught error texts that are part of the rendering change legitimately
+					got, want = reLineInText.ReplaceAllString(got, ":L)"), reLineInText.ReplaceAllString(want, ":L)")
+				}
 				if !strings.HasPrefix(got, want) {
 					env.Violate("streamed-prefix", fc.Name+":prefix", "%s: what preceded the failing action is not (all) in the writer.\nexpected prefix: %s\ngot:             %s", where, sim.Q(want), sim.Q(got))
 				} else if fc.Exact && got != want {
